@@ -88,7 +88,7 @@ def run(ctx):
     from .. import trees as TR
 
     T = ctx.tier == "thorough"
-    fams = TR.READ_FAMILIES
+    fams = TR.READ_FAMILIES + ("BARE",)
     nmax = 10 if T else 8
     idx = 0
     for n in range(1, nmax + 1):
